@@ -62,6 +62,14 @@ def key_term(k, bits):
     return core.low(k.t, bits) if k.t.size() >= bits else core.sext(k.t, bits)
 
 
+class _Deleted:
+    def __repr__(self):
+        return "<deleted>"
+
+
+DELETED = _Deleted()  # write-log entry of a removed key (reads as absent / 0)
+
+
 class Store:
     """key (unsigned, key_bits) -> value (unsigned, val_bits), optionally with presence."""
 
@@ -78,10 +86,12 @@ class Store:
             self.log = list(_share.log)
             self.conc = dict(_share.conc)
             self.cpres = set(_share.cpres) if presence else None
+            self.cdel = set(getattr(_share, "cdel", ()))
         else:
             self.log = []  # sym: (key_term, val_term|None)  (None = deleted; unused)
             self.conc = {}
             self.cpres = set() if presence else None
+            self.cdel = set()
         if self.sym and not self.zero_init:
             fresh = name not in e.ufs
             f = e.uf(name, key_bits, val_bits, export)
@@ -115,7 +125,7 @@ class Store:
                 r = True
             else:
                 r = e.index_implied(kt == wk)
-                if r is None and self.kb <= 8 and is_heavy(wv):
+                if r is None and self.kb <= 8 and wv is not DELETED and is_heavy(wv):
                     # an undetermined aliasing with a multiplication/division result: fork on it
                     # instead of burying the product in an ite (keeps arithmetic terms canonical)
                     r = e.decide(kt == wk)
@@ -130,18 +140,20 @@ class Store:
 
     def read_term(self, kt):
         base, pend = self._relevant(kt)
-        t = self.init_term(kt) if base is None else base
+        zero = z3.BitVecVal(0, self.vb)
+        t = self.init_term(kt) if base is None else (zero if base is DELETED else base)
         for c, wv in pend:
-            t = z3.If(c, wv, t)
+            t = z3.If(c, zero if wv is DELETED else wv, t)
         return t
 
     def present_term(self, kt):
         base, pend = self._relevant(kt)
         if base is not None:
-            return z3.BoolVal(True)
-        t = z3.BoolVal(False) if self.zero_init else self.e.apply_uf(self.name + "_present", kt)
+            t = z3.BoolVal(base is not DELETED)
+        else:
+            t = z3.BoolVal(False) if self.zero_init else self.e.apply_uf(self.name + "_present", kt)
         for c, wv in pend:
-            t = z3.Or(c, t)
+            t = z3.If(c, z3.BoolVal(wv is not DELETED), t)
         return t
 
     # -- common API --------------------------------------------------------------------------------
@@ -170,11 +182,24 @@ class Store:
             return 0
         return self.e.uf_value(self.name, k)
 
+    def delete(self, k):
+        """remove key k (it reads as absent / 0 afterwards)"""
+        if self.sym:
+            self.log.append((key_term(k, self.kb), DELETED if self.presence else z3.BitVecVal(0, self.vb)))
+        else:
+            k = builtins.int(k)
+            self.conc[k] = 0
+            if self.presence:
+                self.cpres.discard(k)
+                self.cdel.add(k)
+
     def is_present(self, k):
         """sym: z3 Bool; conc: bool"""
         if self.sym:
             return self.present_term(key_term(k, self.kb))
         k = builtins.int(k)
+        if k in self.cdel and k not in self.cpres:
+            return False
         if self.zero_init:
             return k in self.cpres
         return k in self.cpres or bool(self.e.uf_value(self.name + "_present", k))
@@ -239,6 +264,24 @@ class SymMem:
         if type(v) is not self.cell_cls:
             self.e.claim("cell-type:" + self.store.name, False, {"stored": type(v).__name__})
         self.store.set(k, _val(v))
+
+    def __delitem__(self, k):
+        self.store.check_key(k)
+        if not self.total:
+            p = self.store.is_present(k)
+            if not (self.e.decide(p) if self.e.mode == "sym" else p):
+                raise KeyError(k)
+        self.store.delete(k)
+
+    def pop(self, k, *default):
+        try:
+            v = self[k]
+        except KeyError:
+            if default:
+                return default[0]
+            raise
+        del self[k]
+        return v
 
     def __contains__(self, k):
         if self.total:
